@@ -79,6 +79,55 @@ def gen_area(r, minpix, maxpix=24, fam=None):
 
 CF_POOL = [f for f in POOL if f.get("cf", True)]
 
+# narrow storage dtypes of the coordinate variables: (dtype, largest magnitude of an exactly stored integer centre)
+DTYPES = [("float32", 2 ** 24 - 1), ("int32", 2 ** 31 - 1), ("int16", 2 ** 15 - 1)]
+
+
+def gen_cf_dtype_case(r, dtype=None):
+    """Pixel centres on integers that the stored dtype holds exactly, odd pixel sizes: the corners sit on half-integers, which
+    the stored dtype cannot hold (int) or cannot hold at that magnitude (float32 above 2^23).  Everything is exact in binary64."""
+    dtype, top = r.choice(DTYPES) if dtype is None else [d for d in DTYPES if d[0] == dtype][0]
+    fam = r.choice([f for f in CF_POOL if f["kind"] == "m"] + ([f for f in CF_POOL if f["kind"] == "deg"] if dtype == "int16" else []))
+    w, h = r.randint(2, 12), r.randint(2, 12)
+
+    def axis(n, geographic_limit=None):
+        if geographic_limit is not None:
+            ps = r.choice([1, 3])
+            lo = r.randint(-geographic_limit, geographic_limit - (n - 1) * ps)
+            return lo, ps
+        if dtype == "float32":
+            ps = r.choice([1, 1, 3, 5])
+            if r.random() < 0.7:      # at least 2^23: float32 has no half-integers there
+                lo = r.randint(2 ** 23, 2 ** 24 - 1 - (n - 1) * ps)
+                if r.random() < 0.3:
+                    lo = -lo - (n - 1) * ps
+            else:
+                lo = r.randint(-(2 ** 20), 2 ** 20)
+            return lo, ps
+        if dtype == "int32":
+            ps = r.choice([1, 3, 5, 25, 1001])
+            return r.randint(-9000000, 9000000), ps
+        # int16: small grids and grids spanning more than the dtype's range (last - first does not fit)
+        ps = r.choice([1, 3, 5]) if r.random() < 0.5 else 2 * r.randint(500, (60000 // (n - 1) - 1) // 2) + 1
+        span = (n - 1) * ps
+        lo = r.randint(-top, top - span)
+        return lo, ps
+    geo = fam["kind"] == "deg"
+    x_lo, psx = axis(w, 170 if geo else None)
+    y_lo, psy = axis(h, 80 if geo else None)
+    xmin, ymin = x_lo - psx / 2.0, y_lo - psy / 2.0
+    spec = {"crs": fam["crs"], "extent": [xmin, ymin, xmin + w * psx, ymin + h * psy], "w": w, "h": h}
+    c = {"area": spec, "flipx": r.random() < 0.3, "flipy": r.random() < 0.5, "mode": 0, "k": None,
+         "lookup": r.choice(["var", "none", "gm", "xy", "from_cf"]), "dims": ["y", "x"], "time": False, "drop_wkt": False,
+         "future": False, "dtype": dtype}
+    if geo:
+        c["xname"], c["yname"], c["xunit"], c["yunit"] = "longitude", "latitude", "degrees_east", "degrees_north"
+    else:
+        c["xname"], c["yname"], c["xunit"], c["yunit"] = "projection_x_coordinate", "projection_y_coordinate", "m", "m"
+    tags = {"fam": fam["name"], "kind": fam["kind"], "dyadic": True, "upside_down": False, "unit": "deg" if geo else "m",
+            "one_pixel": False, "dtype": dtype}
+    return c, tags
+
 
 def gen_cf_case(r, one_pixel=False, fam=None):
     spec, tags = gen_area(r, 1 if one_pixel else 2, fam=fam or r.choice(CF_POOL))
@@ -177,7 +226,7 @@ def judge_cf(c, tags, o):
     """Property oracle for one CF case: list of (key, what)."""
     bad = []
     spec = c["area"]
-    cls = ("xrev" if c["flipx"] else "") + ("sn" if c["flipy"] else "ns") + "." + tags["unit"]
+    cls = ("xrev" if c["flipx"] else "") + ("sn" if c["flipy"] else "ns") + "." + tags["unit"] + ("." + c["dtype"] if c.get("dtype") else "")
     if "setup_error" in o:
         return [("C20.cf.setup", "could not build the CF dataset: " + o["setup_error"])]
     if spec["w"] < 2 or spec["h"] < 2:
@@ -195,6 +244,17 @@ def judge_cf(c, tags, o):
         bad.append(("C20.cf.shape", "shape %s, stored array is %s" % (o["shape"], [spec["h"], spec["w"]])))
     if (exact and o["extent"] != want) or not close4(o["extent"], want, tx, ty):
         bad.append(("C20.cf.extent." + cls, "extent %s, required %s%s" % (o["extent"], want, " exactly (dyadic grid)" if exact else "")))
+    if c.get("dtype") and not o.get("cast_exact"):
+        bad.append(("C20.cf.setup", "generator: the %s cast of the centre vectors was not exact" % c["dtype"]))
+    # the extent is a function of the STORED centre values alone, whatever their storage dtype: exact rational arithmetic
+    from fractions import Fraction as F
+    kf = F(o["k"]) if o["k"] else F(1)
+    fx, lx, fy, ly = F(o["stored_x"][0]), F(o["stored_x"][-1]), F(o["stored_y"][0]), F(o["stored_y"][-1])
+    dx, dy = (lx - fx) / (spec["w"] - 1), (ly - fy) / (spec["h"] - 1)
+    from_stored = [float((fx - dx / 2) * kf), float((ly + dy / 2) * kf), float((lx + dx / 2) * kf), float((fy - dy / 2) * kf)]
+    if not bad and ((exact and o["extent"] != from_stored) or not close4(o["extent"], from_stored, tx, ty)):
+        bad.append(("C20.cf.extent_from_stored." + cls, "extent %s, but the stored centre vectors (first/last %r..%r, %r..%r) determine %s"
+                    % (o["extent"], o["stored_x"][0], o["stored_x"][-1], o["stored_y"][0], o["stored_y"][-1], from_stored)))
     xs, ys = centres(spec)
     if c["flipx"]:
         xs = xs[::-1]
@@ -356,6 +416,7 @@ def build_payload(ctx):
     r = ctx.rng
     cf = [gen_cf_case(r) for _ in range(ctx.n(420, 5000))]
     cf += [gen_cf_case(r, one_pixel=True) for _ in range(ctx.n(24, 200))]
+    cf += [gen_cf_dtype_case(r, dt) for dt, _ in DTYPES for _ in range(ctx.n(20, 300))]
     # every family x orientation at least once
     for fam in CF_POOL:
         for flipx, flipy in ((False, False), (False, True), (True, False), (True, True)):
@@ -407,7 +468,8 @@ def run(ctx):
     ctx.rule = ("PRNG areas over 14 CF-expressible CRSs (laea, stere N/S, merc, lcc, tmerc, UTM/3857/3035 EPSG, longlat x2, geos sweep x/y, "
                 "stere in km), shapes 1..24 (CF: 2..24 plus a 1-pixel-axis stream), half of the grids dyadic (extent multiples of 2^k, power-of-two "
                 "pixel sizes: every intermediate exact), ~12% upside-down originals; CF variants: ascending/descending y and x, units "
-                "m/meters/metres/km/degrees*/radians, variable-, search-, grid-mapping- and from_cf-based lookup, extra time dimension, "
+                "m/meters/metres/km/degrees*/radians, coordinate vectors stored as float32 / int32 / int16 (integer centres the dtype holds exactly, "
+                "odd pixel sizes so the half-integer corners are not storable; float32 above 2^23, int16 also with spans beyond the dtype's range), variable-, search-, grid-mapping- and from_cf-based lookup, extra time dimension, "
                 "grid mapping with or without crs_wkt; plus every shape 2..4 (quick) / 2..7 (thorough) squared x 4 orientations x m/km on one dyadic "
                 "laea grid and every raster shape from 1x1; rasters north-up and south-up through rasterio MemoryFile GeoTIFFs and a duck-typed gdal "
                 "dataset; rotated transforms; ~15% of CF/raster cases with features.future_geometries on; every CF load, "
@@ -439,12 +501,12 @@ def run(ctx):
             fails = JUDGES[sect](c, tags, o)
             ran = not ("setup_error" in o or "error" in o and sect != "cf")
             x0_, y0_, x1_, y1_ = c["area"]["extent"]
-            kind = {"cf": "cf." + ("one_pixel_axis" if tags.get("one_pixel") else "unit_" + tags.get("unit", "?")),
+            kind = {"cf": "cf." + ("one_pixel_axis" if tags.get("one_pixel") else "stored_" + c["dtype"] if c.get("dtype") else "unit_" + tags.get("unit", "?")),
                     "raster": "raster." + ("south_up" if c.get("sn") else "north_up"),
                     "geobox": "geobox." + ("flipped_extent" if (x0_ > x1_ or y0_ > y1_) else "regular"),
                     "cartopy": "cartopy"}[sect]
             sample = None
-            if ran and kind not in sampled and (sect != "cf" or tags.get("unit") in ("m", "km", "rad") or tags.get("one_pixel")):
+            if ran and kind not in sampled and (sect != "cf" or kind in ("cf.unit_m", "cf.unit_km", "cf.one_pixel_axis", "cf.stored_float32", "cf.stored_int16")):
                 sampled.add(kind)
                 sample = {kind: {"area": c["area"], "variant": {k: v for k, v in c.items() if k != "area"},
                                  "impl": {k: o.get(k) for k in ("extent", "shape", "error", "affine", "bounds") if k in o}
@@ -478,6 +540,8 @@ def run(ctx):
             ctx.count("%s.%s" % (sect, "extent_flipped" if (x0_ > x1_ or y0_ > y1_) else "extent_regular"))
             if min(c["area"]["w"], c["area"]["h"]) == 1:
                 ctx.count(sect + ".one_pixel_axis")
+            if c.get("dtype"):
+                ctx.count("cf.stored_dtype_" + c["dtype"])
             for flag in ("future", "time", "by_name"):
                 if c.get(flag):
                     ctx.count("%s.variant_%s" % (sect, flag))
@@ -498,7 +562,7 @@ def run(ctx):
         lines = []
         for c, o in zip(pl["rotated"], obs["rotated"]):
             rot = not (c["tr"][1] == c["tr"][3] == 0)
-            ctx.case(("rot", repr(c)), nontrivial=True, sample=None if "rotated" in sampled or not rot else {"rotated": {"transform": c["tr"], "impl": o}})
+            ctx.case(("rot", repr(c)), nontrivial=True, sample=None)
             if rot:
                 sampled.add("rotated")
             ctx.count("rotated." + ("rotated" if rot else "unrotated"))
